@@ -386,9 +386,8 @@ def sensitive_edits(c):
             c.differ(label, with_variable(ds, n, values=old.values.astype(numpy.int64), attrs=attrs), variable=n)
         if old.dtype == numpy.int32 and (old.values >= 0).all() and '_FillValue' not in old.attrs:
             c.differ('dtype-same-bytes', with_variable(ds, n, values=old.values.astype(numpy.uint32)), variable=n)
-            if old.ndim == 0:
-                c.differ('dtype-same-bytes', with_variable(ds, n, values=old.values.astype(numpy.float32) * 0), variable=n) \
-                    if old.values == 0 else None
+            if old.ndim == 0 and old.values == 0:       # the dummy mesh variable: int32 0 and float32 0.0 share their four bytes
+                c.differ('dtype-same-bytes', with_variable(ds, n, values=numpy.zeros((), dtype=numpy.float32)), variable=n)
 
     # 3. shape with identical bytes: 2-D CF grids, nj != ni (all geometry variables reshaped together, grid data dropped)
     if conv in ('cf2d', 'shoc_simple'):
